@@ -10,7 +10,7 @@ theorem expand_cons (c : CallT) (cs : List CallT) :
     expand (c :: cs) = expand c.1.pre ++ occ c :: expand c.1.post ++ expand cs := by
   obtain ⟨t, a⟩ := c
   cases t with
-  | mk id cls pre post => simp [expand, expandCall, occ, TaskT.pre, TaskT.post, TaskT.id, TaskT.cls]
+  | mk id key cls pre post => simp [expand, expandCall, occ, TaskT.pre, TaskT.post, TaskT.id, TaskT.key, TaskT.cls]
 
 theorem expand_append (a b : List CallT) : expand (a ++ b) = expand a ++ expand b := by
   induction a with
@@ -225,7 +225,7 @@ def lastIdxFrom (t : Nat) : Nat → List Occ → Option Nat
   | i, o :: os =>
     match lastIdxFrom t (i + 1) os with
     | some j => some j
-    | none => if o.id = t then some i else none
+    | none => if o.key = t then some i else none
 
 theorem lookupKV_runResults (t i : Nat) (acc : List (Nat × Nat)) (os : List Occ) :
     lookupKV t (runResults i acc os) =
@@ -240,12 +240,12 @@ theorem lookupKV_runResults (t i : Nat) (acc : List (Nat × Nat)) (os : List Occ
     cases hl : lastIdxFrom t (i + 1) os with
     | some j => simp
     | none =>
-      by_cases h : o.id = t
+      by_cases h : o.key = t
       · simp [h, lookupKV_insertKV_self]
       · simp [h, lookupKV_insertKV_ne h]
 
 theorem lastIdxFrom_none (t : Nat) (os : List Occ) (i : Nat) :
-    lastIdxFrom t i os = none ↔ ∀ o ∈ os, o.id ≠ t := by
+    lastIdxFrom t i os = none ↔ ∀ o ∈ os, o.key ≠ t := by
   induction os generalizing i with
   | nil => simp [lastIdxFrom]
   | cons o os ih =>
@@ -258,7 +258,7 @@ theorem lastIdxFrom_none (t : Nat) (os : List Occ) (i : Nat) :
       exact this (fun x hx => hall x (List.mem_cons_of_mem _ hx))
     | none =>
       have hos := (ih (i + 1)).1 hl
-      by_cases h : o.id = t
+      by_cases h : o.key = t
       · simp [h]
       · simp only [h, if_false, true_iff]
         intro x hx
@@ -268,7 +268,7 @@ theorem lastIdxFrom_none (t : Nat) (os : List Occ) (i : Nat) :
 
 theorem lastIdxFrom_spec (t : Nat) (os : List Occ) (i j : Nat) :
     lastIdxFrom t i os = some j ↔
-      ∃ k, j = i + k ∧ (os[k]?).map Occ.id = some t ∧ ∀ k', k < k' → (os[k']?).map Occ.id ≠ some t := by
+      ∃ k, j = i + k ∧ (os[k]?).map Occ.key = some t ∧ ∀ k', k < k' → (os[k']?).map Occ.key ≠ some t := by
   induction os generalizing i j with
   | nil => simp [lastIdxFrom]
   | cons o os ih =>
@@ -294,7 +294,7 @@ theorem lastIdxFrom_spec (t : Nat) (os : List Occ) (i j : Nat) :
           | succ m' =>
             exact absurd (by simpa using hm1) (hk2 m' (by omega))
     | none =>
-      have hnone : ∀ k : Nat, (os[k]?).map Occ.id ≠ some t := by
+      have hnone : ∀ k : Nat, (os[k]?).map Occ.key ≠ some t := by
         intro k hk
         have hall := (lastIdxFrom_none t os (i + 1)).1 hl
         cases ho : os[k]? with
@@ -303,7 +303,7 @@ theorem lastIdxFrom_spec (t : Nat) (os : List Occ) (i j : Nat) :
           have hx : x ∈ os := List.mem_of_getElem? ho
           simp only [ho, Option.map_some, Option.some.injEq] at hk
           exact hall x hx hk
-      by_cases h : o.id = t
+      by_cases h : o.key = t
       · simp only [h, if_true, Option.some.injEq]
         constructor
         · rintro rfl
